@@ -392,27 +392,37 @@ def unindexDoc (x : KTx K) (d : Int) : KTx K :=
     let r := unpostAll x d kws
     if r.2 then (r.1.revErase d).lenChange (-1) else r.1
 
+/-- `word_idx = idx.get(word); if word_idx is None: idx[word] = word_idx = Set()` -/
+def postingFor (x : KTx K) (w : K) : KTx K × Oid :=
+  match AMap.get x.heap.fwd w with
+  | some o => (x, o)
+  | none =>
+    let r := x.alloc (Tag.set, [])
+    (r.1.fwdSet w r.2, r.2)
+
+/-- `if not isinstance(word_idx, TreeSet) and len(word_idx) >= self.tree_threshold:
+idx[word] = TreeSet(word_idx); word_idx.clear()` – `p` = the set's class and its members before the
+insertion, `s'` = its members now -/
+def promote (c : KCfg) (x : KTx K) (w : K) (o : Oid) (p : Tag × List Int) (s' : List Int) : KTx K :=
+  if p.1 ≠ Tag.tree ∧ c.thr ≤ s'.length then
+    let r := x.alloc (Tag.tree, s')                                          -- `TreeSet(word_idx)`
+    let x := r.1.fwdSet w r.2                                                -- `idx[word] = …`
+    if c.clearReplaced then x.postClear o p.1 else x                         -- `word_idx.clear()`
+  else x
+
+/-- one round of the loop in `_insert_forward` -/
+def insertOne (c : KCfg) (x : KTx K) (d : Int) (w : K) : KTx K :=
+  let r := postingFor (x.rd (.fwd w)) w
+  let p := r.1.obj r.2
+  let s' := LSet.insert p.2 d
+  let x := r.1.rd (.post r.2 d)
+  let x := if d ∈ p.2 then x else x.postPut r.2 d (p.1, s')                 -- `word_idx.insert(docid)`
+  promote c (x.rd (.whole r.2)) w r.2 p s'
+
 /-- `KeywordIndex._insert_forward` -/
 def insertForward (c : KCfg) (x : KTx K) (d : Int) : List K → KTx K
   | [] => x
-  | w :: ws =>
-    let x := x.rd (.fwd w)
-    let (x, o) :=
-      match AMap.get x.heap.fwd w with
-      | some o => (x, o)
-      | none => let (x, o) := x.alloc (Tag.set, []); (x.fwdSet w o, o)      -- `idx[word] = word_idx = Set()`
-    let p := x.obj o
-    let x := x.rd (.post o d)
-    let s' := LSet.insert p.2 d
-    let x := if d ∈ p.2 then x else x.postPut o d (p.1, s')                  -- `word_idx.insert(docid)`
-    let x := x.rd (.whole o)
-    let x :=
-      if p.1 ≠ Tag.tree ∧ c.thr ≤ s'.length then
-        let (x, o') := x.alloc (Tag.tree, s')                                -- `TreeSet(word_idx)`
-        let x := x.fwdSet w o'                                               -- `idx[word] = …`
-        if c.clearReplaced then x.postClear o p.1 else x                     -- `word_idx.clear()`
-      else x
-    insertForward c x d ws
+  | w :: ws => insertForward c (insertOne c x d w) d ws
 
 /-- `KeywordIndex._insert_reverse` -/
 def insertReverse (x : KTx K) (d : Int) (words : List K) : KTx K :=
@@ -450,14 +460,10 @@ def indexDoc (c : KCfg) (x : KTx K) (d : Int) (v : Option (List K)) : KTx K :=
 /-- body of `FacetIndex.index_doc`'s innermost loop: `fwset.insert(docid)` (a new `IF.Set` when
 absent, never replaced) and `revset.insert(fac)` -/
 def facetAddOne (x : KTx K) (d : Int) (fac : K) : KTx K :=
-  let x := x.rd (.fwd fac)
-  let (x, o) :=
-    match AMap.get x.heap.fwd fac with
-    | some o => (x, o)
-    | none => let (x, o) := x.alloc (Tag.set, []); (x.fwdSet fac o, o)
-  let p := x.obj o
-  let x := x.rd (.post o d)
-  let x := if d ∈ p.2 then x else x.postPut o d (p.1, LSet.insert p.2 d)
+  let r := postingFor (x.rd (.fwd fac)) fac
+  let p := r.1.obj r.2
+  let x := r.1.rd (.post r.2 d)
+  let x := if d ∈ p.2 then x else x.postPut r.2 d (p.1, LSet.insert p.2 d)
   let x := x.rd (.rev d)
   x.revSet d (LSet.insert ((AMap.get x.heap.rev d).getD []) fac)
 
